@@ -116,6 +116,7 @@ var c05 struct {
 	noObligation                        bool // C11 harness: permits only
 	hopFaults                           bool // next-hop MAIL/RCPT/DATA refusals are symbolic
 	cnames                              bool // MX hosts may be CNAME aliases
+	plain                               bool // no TLS facts: every host speaks plaintext only (harnesses about results / permits)
 }
 
 func c05HostByName(n string) *c05Host {
@@ -130,7 +131,7 @@ func c05HostByName(n string) *c05Host {
 
 // ---- smtpconn.C (verified separately: C09) ----
 
-//verif:stub (*github.com/foxcpp/maddy/internal/smtpconn.C).Connect @harness_C05_policy,harness_C11_remote,harness_C16_remote
+//verif:stub (*github.com/foxcpp/maddy/internal/smtpconn.C).Connect @harness_C05_policy,harness_C11_remote,harness_C16_remote,harness_C09_remote
 func stubC05Connect(c *smtpconn.C, ctx context.Context, endp config.Endpoint, starttls bool, tlsCfg *tls.Config) (bool, error) {
 	h := c05HostByName(endp.Host)
 	if h == nil {
@@ -145,7 +146,7 @@ func stubC05Connect(c *smtpconn.C, ctx context.Context, endp config.Endpoint, st
 	return false, nil
 }
 
-//verif:stub (*github.com/foxcpp/maddy/internal/smtpconn.C).Client @harness_C05_policy,harness_C11_remote,harness_C16_remote
+//verif:stub (*github.com/foxcpp/maddy/internal/smtpconn.C).Client @harness_C05_policy,harness_C11_remote,harness_C16_remote,harness_C09_remote
 func stubC05Client(c *smtpconn.C) *smtp.Client {
 	if m := c05.conns[c]; m != nil {
 		return m.client
@@ -153,7 +154,7 @@ func stubC05Client(c *smtpconn.C) *smtp.Client {
 	return nil
 }
 
-//verif:stub (*github.com/foxcpp/maddy/internal/smtpconn.C).Close @harness_C05_policy,harness_C11_remote,harness_C16_remote
+//verif:stub (*github.com/foxcpp/maddy/internal/smtpconn.C).Close @harness_C05_policy,harness_C11_remote,harness_C16_remote,harness_C09_remote
 func stubC05Close(c *smtpconn.C) error {
 	if c05.conns[c] == nil {
 		panic("runtime error: invalid memory address or nil pointer dereference (Close on a closed smtpconn.C)")
@@ -162,7 +163,7 @@ func stubC05Close(c *smtpconn.C) error {
 	return nil
 }
 
-//verif:stub (*github.com/foxcpp/maddy/internal/smtpconn.C).DirectClose @harness_C05_policy,harness_C11_remote,harness_C16_remote
+//verif:stub (*github.com/foxcpp/maddy/internal/smtpconn.C).DirectClose @harness_C05_policy,harness_C11_remote,harness_C16_remote,harness_C09_remote
 func stubC05DirectClose(c *smtpconn.C) error {
 	if c05.conns[c] == nil {
 		panic("runtime error: invalid memory address or nil pointer dereference (DirectClose on a closed smtpconn.C)")
@@ -171,13 +172,13 @@ func stubC05DirectClose(c *smtpconn.C) error {
 	return nil
 }
 
-//verif:stub (*github.com/foxcpp/maddy/internal/smtpconn.C).LocalAddr @harness_C05_policy,harness_C11_remote,harness_C16_remote
+//verif:stub (*github.com/foxcpp/maddy/internal/smtpconn.C).LocalAddr @harness_C05_policy,harness_C11_remote,harness_C16_remote,harness_C09_remote
 func stubC05LocalAddr(c *smtpconn.C) net.Addr { return nil }
 
-//verif:stub (*github.com/foxcpp/maddy/internal/smtpconn.C).RemoteAddr @harness_C05_policy,harness_C11_remote,harness_C16_remote
+//verif:stub (*github.com/foxcpp/maddy/internal/smtpconn.C).RemoteAddr @harness_C05_policy,harness_C11_remote,harness_C16_remote,harness_C09_remote
 func stubC05RemoteAddr(c *smtpconn.C) net.Addr { return nil }
 
-//verif:stub (*github.com/foxcpp/maddy/internal/smtpconn.C).ServerName @harness_C05_policy,harness_C11_remote,harness_C16_remote
+//verif:stub (*github.com/foxcpp/maddy/internal/smtpconn.C).ServerName @harness_C05_policy,harness_C11_remote,harness_C16_remote,harness_C09_remote
 func stubC05ServerName(c *smtpconn.C) string {
 	if m := c05.conns[c]; m != nil {
 		return m.host.name
@@ -185,7 +186,7 @@ func stubC05ServerName(c *smtpconn.C) string {
 	return ""
 }
 
-//verif:stub (*github.com/foxcpp/maddy/internal/smtpconn.C).Mail @harness_C05_policy,harness_C11_remote,harness_C16_remote
+//verif:stub (*github.com/foxcpp/maddy/internal/smtpconn.C).Mail @harness_C05_policy,harness_C11_remote,harness_C16_remote,harness_C09_remote
 func stubC05Mail(c *smtpconn.C, ctx context.Context, from string, opts smtp.MailOptions) error {
 	m := c05.conns[c]
 	if m == nil {
@@ -202,7 +203,7 @@ func stubC05Mail(c *smtpconn.C, ctx context.Context, from string, opts smtp.Mail
 	return nil
 }
 
-//verif:stub (*github.com/foxcpp/maddy/internal/smtpconn.C).Rcpt @harness_C05_policy,harness_C11_remote,harness_C16_remote
+//verif:stub (*github.com/foxcpp/maddy/internal/smtpconn.C).Rcpt @harness_C05_policy,harness_C11_remote,harness_C16_remote,harness_C09_remote
 func stubC05Rcpt(c *smtpconn.C, ctx context.Context, to string, opts smtp.RcptOptions) error {
 	m := c05.conns[c]
 	if m == nil || !m.mailOK {
@@ -215,7 +216,7 @@ func stubC05Rcpt(c *smtpconn.C, ctx context.Context, to string, opts smtp.RcptOp
 	return nil
 }
 
-//verif:stub (*github.com/foxcpp/maddy/internal/smtpconn.C).Rcpts @harness_C05_policy,harness_C11_remote,harness_C16_remote
+//verif:stub (*github.com/foxcpp/maddy/internal/smtpconn.C).Rcpts @harness_C05_policy,harness_C11_remote,harness_C16_remote,harness_C09_remote
 func stubC05Rcpts(c *smtpconn.C) []string {
 	if m := c05.conns[c]; m != nil {
 		return m.rcpts
@@ -226,7 +227,7 @@ func stubC05Rcpts(c *smtpconn.C) []string {
 // Data is where message content leaves: the obligation of the property is
 // evaluated here, from world facts and the state of the modelled connection.
 //
-//verif:stub (*github.com/foxcpp/maddy/internal/smtpconn.C).Data @harness_C05_policy,harness_C11_remote,harness_C16_remote
+//verif:stub (*github.com/foxcpp/maddy/internal/smtpconn.C).Data @harness_C05_policy,harness_C11_remote,harness_C16_remote,harness_C09_remote
 func stubC05Data(c *smtpconn.C, ctx context.Context, hdr textproto.Header, body io.Reader) error {
 	m := c05.conns[c]
 	if m == nil || !m.mailOK || len(m.rcpts) == 0 {
@@ -246,7 +247,7 @@ func stubC05Data(c *smtpconn.C, ctx context.Context, hdr textproto.Header, body 
 
 // ---- go-smtp client of a modelled connection ----
 
-//verif:stub (*github.com/emersion/go-smtp.Client).Extension @harness_C05_policy,harness_C11_remote,harness_C16_remote
+//verif:stub (*github.com/emersion/go-smtp.Client).Extension @harness_C05_policy,harness_C11_remote,harness_C16_remote,harness_C09_remote
 func stubC05Extension(cl *smtp.Client, ext string) (bool, string) {
 	m := c05.clients[cl]
 	switch ext {
@@ -258,7 +259,7 @@ func stubC05Extension(cl *smtp.Client, ext string) (bool, string) {
 	return false, ""
 }
 
-//verif:stub (*github.com/emersion/go-smtp.Client).StartTLS @harness_C05_policy,harness_C11_remote,harness_C16_remote
+//verif:stub (*github.com/emersion/go-smtp.Client).StartTLS @harness_C05_policy,harness_C11_remote,harness_C16_remote,harness_C09_remote
 func stubC05StartTLS(cl *smtp.Client, cfg *tls.Config) error {
 	m := c05.clients[cl]
 	if m.host.starttlsErr {
@@ -269,7 +270,7 @@ func stubC05StartTLS(cl *smtp.Client, cfg *tls.Config) error {
 	return nil
 }
 
-//verif:stub (*github.com/emersion/go-smtp.Client).Hello @harness_C05_policy,harness_C11_remote,harness_C16_remote
+//verif:stub (*github.com/emersion/go-smtp.Client).Hello @harness_C05_policy,harness_C11_remote,harness_C16_remote,harness_C09_remote
 func stubC05Hello(cl *smtp.Client, name string) error {
 	m := c05.clients[cl]
 	if !m.pendTLS {
@@ -297,7 +298,7 @@ func stubC05Hello(cl *smtp.Client, name string) error {
 	return errors.New("tls: handshake failure")
 }
 
-//verif:stub (*github.com/emersion/go-smtp.Client).TLSConnectionState @harness_C05_policy,harness_C11_remote,harness_C16_remote
+//verif:stub (*github.com/emersion/go-smtp.Client).TLSConnectionState @harness_C05_policy,harness_C11_remote,harness_C16_remote,harness_C09_remote
 func stubC05TLSState(cl *smtp.Client) (tls.ConnectionState, bool) {
 	m := c05.clients[cl]
 	if m.tlsState == 0 {
@@ -310,12 +311,12 @@ func stubC05TLSState(cl *smtp.Client) (tls.ConnectionState, bool) {
 	return st, true
 }
 
-//verif:stub (*github.com/emersion/go-smtp.Client).Reset @harness_C05_policy,harness_C11_remote,harness_C16_remote
+//verif:stub (*github.com/emersion/go-smtp.Client).Reset @harness_C05_policy,harness_C11_remote,harness_C16_remote,harness_C09_remote
 func stubC05Reset(cl *smtp.Client) error { return nil }
 
 // ---- DNS (DNSSEC-aware resolver) ----
 
-//verif:stub (github.com/foxcpp/maddy/framework/dns.ExtResolver).AuthLookupMX @harness_C05_policy,harness_C11_remote,harness_C16_remote
+//verif:stub (github.com/foxcpp/maddy/framework/dns.ExtResolver).AuthLookupMX @harness_C05_policy,harness_C11_remote,harness_C16_remote,harness_C09_remote
 func stubC05LookupMX(e dns.ExtResolver, ctx context.Context, name string) (bool, []*net.MX, error) {
 	d := c05DomByName(name)
 	if d.mxLookupFail {
@@ -338,7 +339,7 @@ func c05DomByName(n string) *c05Domain {
 	return nil
 }
 
-//verif:stub (github.com/foxcpp/maddy/framework/dns.ExtResolver).CheckCNAMEAD @harness_C05_policy,harness_C11_remote,harness_C16_remote
+//verif:stub (github.com/foxcpp/maddy/framework/dns.ExtResolver).CheckCNAMEAD @harness_C05_policy,harness_C11_remote,harness_C16_remote,harness_C09_remote
 func stubC05CheckCNAMEAD(e dns.ExtResolver, ctx context.Context, host string) (bool, string, error) {
 	h := c05HostByName(host)
 	switch h.tlsa {
@@ -353,12 +354,12 @@ func stubC05CheckCNAMEAD(e dns.ExtResolver, ctx context.Context, host string) (b
 	return true, host, nil
 }
 
-//verif:stub (github.com/foxcpp/maddy/framework/dns.ExtResolver).AuthLookupCNAME @harness_C05_policy,harness_C11_remote,harness_C16_remote
+//verif:stub (github.com/foxcpp/maddy/framework/dns.ExtResolver).AuthLookupCNAME @harness_C05_policy,harness_C11_remote,harness_C16_remote,harness_C09_remote
 func stubC05LookupCNAME(e dns.ExtResolver, ctx context.Context, host string) (bool, string, error) {
 	return false, "", nil
 }
 
-//verif:stub (github.com/foxcpp/maddy/framework/dns.ExtResolver).AuthLookupTLSA @harness_C05_policy,harness_C11_remote,harness_C16_remote
+//verif:stub (github.com/foxcpp/maddy/framework/dns.ExtResolver).AuthLookupTLSA @harness_C05_policy,harness_C11_remote,harness_C16_remote,harness_C09_remote
 func stubC05LookupTLSA(e dns.ExtResolver, ctx context.Context, service, network, domain string) (bool, []dns.TLSA, error) {
 	h := c05HostByName(domain)
 	kind := h.tlsa
@@ -382,7 +383,7 @@ func stubC05LookupTLSA(e dns.ExtResolver, ctx context.Context, service, network,
 // and no TLS: refuse; all records unusable: no opinion; a usable record
 // matches: authenticated; usable records and none matches: refuse.
 //
-//verif:stub github.com/foxcpp/maddy/internal/target/remote.verifyDANE @harness_C05_policy,harness_C11_remote,harness_C16_remote
+//verif:stub github.com/foxcpp/maddy/internal/target/remote.verifyDANE @harness_C05_policy,harness_C11_remote,harness_C16_remote,harness_C09_remote
 func stubC05VerifyDANE(recs []dns.TLSA, st tls.ConnectionState) (bool, error) {
 	if len(recs) == 0 {
 		return false, nil
@@ -543,11 +544,13 @@ func c05World(nmx, ndom int) {
 			h := &c05Host{name: fmt.Sprintf("mx%d.%s", i+1, d.name), dom: d}
 			p := fmt.Sprintf("%smx%d.", dp, i+1)
 			h.connFail = nondetBool(p + "connFail")
-			h.starttls = nondetBool(p + "starttls")
-			h.starttlsErr = nondetBool(p + "starttlsErr")
-			h.hs = nondetInt(p+"hs", 0, 2)
-			h.hsInsecure = nondetBool(p + "hsInsecure")
-			h.reqtls = nondetBool(p + "reqtls")
+			if !c05.plain {
+				h.starttls = nondetBool(p + "starttls")
+				h.starttlsErr = nondetBool(p + "starttlsErr")
+				h.hs = nondetInt(p+"hs", 0, 2)
+				h.hsInsecure = nondetBool(p + "hsInsecure")
+				h.reqtls = nondetBool(p + "reqtls")
+			}
 			if c05.hopFaults {
 				h.mailFail = nondetBool(p + "mailFail")
 				h.rcptFail = nondetBool(p + "rcptFail")
